@@ -136,7 +136,9 @@ def make_tasks(call_no, victim_pids):
         if call_no == 1 and KIND == "startup_reduce" and i == 0:
             arg = T.KillOnPickle(victim_pids, HOW, i)
         arm = call_no == 0 and T.exit_status(HOW) is not None and KIND in BETWEEN_KINDS
-        items.append(delayed(T.task)(i, fault, HOW, arg, sc.get("sleep", 0.0), arm))
+        nested = bool(sc.get("nested")) and ((call_no == 1 and fault_here and i in sc["victims"])
+                                             or (call_no == 0 and KIND in BETWEEN_KINDS))
+        items.append(delayed(T.task)(i, fault, HOW, arg, sc.get("sleep", 0.0), arm, nested))
     if call_no == 1 and KIND == "dispatching":
         def slow_gen():
             # the caller is still DISPATCHING (inside dispatch_one_batch, Parallel._lock held) when the victim dies
@@ -260,12 +262,27 @@ def install_lock_probe():
         PROBE["installed"] = True
 
 
+def nested_report():
+    """pids of the nested loky workers started by (dead) workers, and which of them are still alive"""
+    owners, alive = {}, []
+    for x in os.listdir("."):
+        if x.startswith("nested_") and not x.endswith(".tmp"):
+            pids = [int(p) for p in open(x).read().split()]
+            owners[x[7:]] = pids
+            alive += [p for p in pids if not dead(p)]
+    return {"nested_owners": owners, "nested_alive": alive}
+
+
 def scenario(par):
     one_call(par, 0, [])
+    if sc.get("nested") and KIND in BETWEEN_KINDS:
+        # victims must be workers that really started nested workers
+        have = [int(x[7:]) for x in os.listdir(".") if x.startswith("nested_") and not x.endswith(".tmp")]
+        LAST["pids"] = [p for p in LAST.get("pids", []) if p in have] or LAST.get("pids")
     if sc.get("probe"):
         install_lock_probe()
     st = exec_state()
-    if T.exit_status(HOW) is not None and KIND in BETWEEN_KINDS and LAST.get("pids"):
+    if (T.exit_status(HOW) is not None or sc.get("nested")) and KIND in BETWEEN_KINDS and LAST.get("pids"):
         st = dict(st, pids=[p for p in st["pids"] if p in LAST["pids"]] or st["pids"])
     victim_pids = []
     if KIND in ("idle_settled", "idle_unsettled", "startup_gen", "startup_reduce", "submit_window"):
@@ -345,6 +362,8 @@ if sc["managed"]:
         scenario(par)
 else:
     scenario(Parallel(**kw))
+if sc.get("nested"):
+    emit(nested_report())
 emit({"done": True})
 out.close()
 os._exit(0)
